@@ -154,6 +154,13 @@ def all_snippets(pt) -> List[Tuple[str, Callable]]:
     for s, l in ((0, 0), (0, 255), (255, 255), (0, 256), (256, 0), (255, 1), (3, 300)):
         add("Extract(c,%d,%d)" % (s, l), (lambda s=s, l=l: pt.Extract(B("00" * 8), I(s), I(l))))
         add("Substring(c,%d,%d)" % (s, l), (lambda s=s, l=l: pt.Substring(B("00" * 8), I(s), I(max(s, l)))))
+    # dense grid around the uint8 immediate boundary (opcode choice depends on start, end and length)
+    _pts = (0, 1, 2, 254, 255, 256, 257, 300, 510, 511, 512)
+    for s in _pts:
+        for e in _pts:
+            if e >= s:
+                add("Substring(grid,%d,%d)" % (s, e), (lambda s=s, e=e: pt.Substring(B("00" * 8), I(s), I(e))))
+            add("Extract(grid,%d,%d)" % (s, e), (lambda s=s, e=e: pt.Extract(B("00" * 8), I(s), I(e))))
     for s in (0, 1, 255, 256):
         add("Suffix(c,%d)" % s, (lambda s=s: pt.Suffix(B("00" * 8), I(s))))
         add("Replace(c,%d)" % s, (lambda s=s: pt.Replace(B("00" * 8), I(s), B())))
